@@ -422,6 +422,15 @@ pub fn database_of(tables: &J, random: RandomMode) -> Result<Connection, String>
     Ok(conn)
 }
 
+/// A database without any of the harness's functions: what a stock SQLite accepts (C17).
+pub fn plain_database_of(tables: &J) -> Result<Connection, String> {
+    let conn = Connection::open_in_memory().map_err(|e| e.to_string())?;
+    for t in tables.as_array().unwrap() {
+        create_table(&conn, t)?;
+    }
+    Ok(conn)
+}
+
 // ---------------------------------------------------------------- relation description
 pub fn kind_of(r: &Relation) -> &'static str {
     match r {
